@@ -534,3 +534,14 @@ Definition c03_e2e_sb (n : option N) (s t : N) (test : bool) (samples iters : N)
   else
     let r := ceil_div nn t in
     (samples =? t * r) && (iters =? t * r * s) && all_eq (s * r) calls.
+
+(** [ParsedSeconds] (`--min-time` / `--max-time` / DIVAN_MIN_TIME / DIVAN_MAX_TIME):
+    decimal seconds [ip.frac] with at most 9 fractional digits are that many
+    nanoseconds, exactly. *)
+Definition decimal_nanos (ip : N) (frac : list N) : N :=
+  ip * 1000000000 + fold_left (fun acc d => acc * 10 + d) (firstn 9 (frac ++ repeat 0 9)) 0.
+
+(** When every round lasts at least [d], the time ceiling [max] allows at most
+    ceil(max/d) rounds: the last round started before the ceiling was reached. *)
+Definition c04_os_sb (max d rounds : N) : bool :=
+  (rounds =? 0) || ((rounds - 1) * d <? max).
